@@ -127,6 +127,7 @@ var items = []string{
 	"<iq type='get' id='x' from='me@example.net'><query xmlns='urn:example:q'/></iq>",
 	"<message from='a@example.net/r'><body>hi</body><x xmlns='urn:example:other'><y>z</y></x></message>",
 	"<a/>",
+	"<stream><error xmlns='urn:example:other'/></stream>",
 	"<presence from='me@example.net/res'/>",
 	"<message><body><!-- c --></body>t</message>",
 	"<iq type='set' id='y'><q xmlns='urn:example:q'><?pi?></q></iq>",
@@ -185,7 +186,7 @@ func (x *runner) exhaustive(depth int) {
 }
 
 func randTree(r *hx.Rand, depth int, dirtyOK bool) string {
-	name := sv.Pick(r, []string{"a", "b", "body", "query", "iq", "x"})
+	name := sv.Pick(r, []string{"a", "b", "body", "query", "iq", "x", "stream", "error"})
 	ns := ""
 	if r.Chance(1, 4) {
 		ns = " xmlns='" + sv.Pick(r, []string{"urn:example:q", "urn:example:other", "jabber:client", "jabber:server"}) + "'"
@@ -352,7 +353,7 @@ func main() {
 			x.randomReader(r)
 		}
 	}
-	res.Rule = "inputs: corpus; exhaustive small scope (all sequences of up to 2 (thorough: 3) items from 19 kinds of top-level input " +
+	res.Rule = "inputs: corpus; exhaustive small scope (all sequences of up to 2 (thorough: 3) items from 20 kinds of top-level input " +
 		"— stanzas, other elements, elements holding comments / PIs / stream errors, keep-alives, comment, PI, directive, text, non-ASCII white space, " +
 		"stream error, stream features, restart, close, truncated element — with and without closing tag x 9 handler consumption patterns); " +
 		"seeded random scripts of 1-5 items with element trees of depth 0-3 and a drawn handler program per element (partial writes included); " +
